@@ -38,7 +38,7 @@ Leaf(unit) == IF unit.defs = <<>> THEN unit.schema.properties[1].s ELSE unit.def
 
 \* encoding/json typed decode of a non-null JSON value into the Go type chosen for a primitive leaf
 GoDecodes(ty, v) ==
-  CASE ty = "string"  -> v.t = "str"
+  CASE ty = "string"  -> v.t \in {"str", "fmt"}
     [] ty = "integer" -> v.t \in {"num", "big"} /\ IsIntegral(v)
     [] ty = "number"  -> v.t \in {"num", "big"}
     [] ty = "boolean" -> v.t = "bool"
